@@ -329,7 +329,7 @@ def print_assumptions(pid, prop_file):
             res[t] = []
         else:
             ax = re.findall(r"^([A-Za-z_][A-Za-z0-9_.']*)\s*:", body, flags=re.M)
-            res[t] = ax
+            res[t] = [a for a in ax if a not in ("Axioms", "Fetching", "Opaque", "Transparent")]
     return res
 
 
@@ -426,8 +426,9 @@ class Ctx:
         self.proof_ok = True
         self.proof_log = ""
         self.proof_problems = []
-        for f in glob.glob(os.path.join(VERIF, "replays", "%s_*.replay" % pid)):
-            os.unlink(f)
+        if "--replay" not in sys.argv:
+            for f in glob.glob(os.path.join(VERIF, "replays", "%s_*.replay" % pid)):
+                os.unlink(f)
 
     def quick(self):
         return self.tier == "quick"
